@@ -798,6 +798,8 @@ class TextXVisitor(RRELVisitor):
                 raise TextXError("param split requires a string parameter")
             if name == "split" and len(value) == 0:
                 raise TextXError("param split requires a non-empty string parameter")
+            if name == "ws" and not isinstance(value, str):
+                raise TextXError("param ws requires a string parameter")
             if name == "ws" and "\\" in value:
                 new_value = ""
                 if "\\n" in value:
